@@ -136,7 +136,14 @@ def c04seq(req):
 def script(req):
     """generic: run a python snippet that sets `violated` and `observation`"""
     ns = {}
-    exec(req["code"], ns)
+    try:
+        exec(req["code"], ns)
+    except Exception as e:  # noqa: BLE001  the statement was not even evaluable: the library raised
+        tb = traceback.extract_tb(e.__traceback__)
+        where = [f for f in tb if "luqum" in (f.filename or "")]
+        if not where:
+            raise
+        return {"violated": True, "observation": "raised %s: %s (at %s:%d)" % (type(e).__name__, e, where[-1].filename, where[-1].lineno)}
     return {"violated": bool(ns.get("violated")), "observation": str(ns.get("observation"))}
 
 
